@@ -77,12 +77,12 @@ def subclasses_walk(schema, p):
     return out
 
 
-def disc_variants(schema, p, wf, sup):
+def disc_variants(schema, p, wf, sup, tagger=False):
     """the classes a discriminator over p can produce (with a field: the tagged ones)"""
     vs = subclasses_walk(schema, p) + ([p] if sup else [])
     # (a class that is itself a dispatcher - nested class-level discriminator - is abstract: no instances of it)
     vs = [v for v in vs if not (schema["classes"][v].get("disc") and v != p) and not (v == p and schema["classes"][p].get("disc"))]
-    return [v for v in vs if has_tag(schema, v)] if wf else vs
+    return [v for v in vs if has_tag(schema, v) or tagger] if wf else vs
 
 
 def descendants(schema, c):
@@ -222,6 +222,10 @@ PRE_N = [0]
 REPL = {repl}     # hooks return new objects instead of their argument
 
 
+def _tagger(cls):          # variant_tagger_fn: every variant is registered under its class name
+    return cls.__name__
+
+
 def _post_init(self):
     self.__dict__["_uid"] = UID[0]
     UID[0] += 1
@@ -312,6 +316,8 @@ def class_source(schema) -> str:
             cfg.append("code_generation_options = " + ("[ADD_SERIALIZATION_CONTEXT]" if ctx_on(schema, c) else "[]"))
         if k.get("disc") == "nofield":
             cfg.append('discriminator = Discriminator(include_subtypes=True)')
+        elif k.get("disc") and k.get("tagger"):
+            cfg.append('discriminator = Discriminator(field="kind", include_subtypes=True, variant_tagger_fn=_tagger)')
         elif k.get("disc"):
             cfg.append('discriminator = Discriminator(field="kind", include_subtypes=True)')
         if k.get("tag"):
@@ -456,7 +462,8 @@ def wire_of(schema, v, drop_default_none=False):
         if x[0] == "none" and drop_default_none and name_default(schema, n):
             continue
         d[f"f{n}"] = wire_of(schema, x, drop_default_none)
-    if has_tag(schema, c):
+    r = disc_root(schema, c)
+    if has_tag(schema, c) or (r is not None and schema["classes"][r].get("tagger")):
         d["kind"] = f"K{c}"
     return d
 
@@ -968,7 +975,8 @@ def coq_env(schema):
         tag = f"(Some {c})" if k.get("tag") else "None"
         disc = {None: "None", False: "None", "field": "(Some true)", True: "(Some true)", "nofield": "(Some false)"}[k.get("disc")]
         cs.append(f"Build_cinfo [{fl}] " + " ".join(coq_bool(has_hook(schema, c, h)) for h in HOOKS)
-                  + " " + coq_bool(ctx_on(schema, c)) + f" {par} {tag} {disc} " + coq_xf(class_flags(schema, c)))
+                  + " " + coq_bool(ctx_on(schema, c)) + f" {par} {tag} {disc} " + coq_xf(class_flags(schema, c))
+                  + " " + coq_bool(k.get("tagger")))
     return "[" + ";\n      ".join(cs) + "]"
 
 
